@@ -70,6 +70,10 @@ def triples(V, wd, tier, rng):
     cases = [t for t in itertools.product(W, repeat=3)]
     rng.shuffle(cases)
     cases = cases[:300] if tier == "quick" else cases
+    # quadruples of sequences of length 1..2: four leaves give the guide tree a choice of shapes
+    quad = [t for t in itertools.product(words("AC", 2), repeat=4)]
+    rng.shuffle(quad)
+    cases = cases + (quad[:150] if tier == "quick" else quad)
     jobs = []
     for pi, (ty, pens) in enumerate(PARAMS[:2] if tier == "quick" else PARAMS[:3]):
         for k in range(0, len(cases), 100):
@@ -79,7 +83,7 @@ def triples(V, wd, tier, rng):
         pi, ty, pens, k0, cs = job
         bwd = os.path.join(wd, "st%d_%d" % (pi, k0))
         os.makedirs(bwd, exist_ok=True)
-        lines = ["level 1", "hserial 1"]
+        lines = ["level 2", "hserial 1"]
         for k, t in enumerate(cs):
             fa = os.path.join(bwd, "c%d.fa" % k)
             open(fa, "w").write("".join(">n%d\n%s\n" % (i, s) for i, s in enumerate(t)))
@@ -89,10 +93,18 @@ def triples(V, wd, tier, rng):
         kp = os.path.join(bwd, "p.ndjson")
         kv.write_ndjson(kp, keep)
         res = kv.run_tlc("ProgressiveTrace", "ProgressiveTrace.cfg", bwd, trace=kp, timeout=1800, heap="3g", name="prog")
+        # the distance matrix and the UPGMA tree of the same runs
+        gp = os.path.join(bwd, "g.ndjson")
+        kv.write_ndjson(gp, [e for e in kv.read_trace(tp) if e.get("e") in ("RunBegin", "Sorted", "Dm", "Tree") or (e.get("e") == "Obj" and e.get("tag") == "in")])
+        res.gt = kv.run_tlc("GuideTreeTrace", "GuideTreeTrace.cfg", bwd, trace=gp, timeout=1800, heap="3g", name="gt")
         return job, rc, res
 
     for job, rc, res in kv.pmap(do, jobs, workers=12):
         V.add_tlc(res)
+        V.add_tlc(res.gt)
+        V.extra["smallscope_distance_matrices"] = V.extra.get("smallscope_distance_matrices", 0) + sum(1 for x in res.gt.prints if x.startswith('<<"KVDM"'))
+        for (ln, sid, items) in res.gt.divs:
+            V.divergence("small-scope guide tree batch %s event %d: %s" % (job[:4], ln, ",".join(sorted(items))))
         V.extra["smallscope_triples_rows_compared"] = V.extra.get("smallscope_triples_rows_compared", 0) + sum(1 for x in res.prints if x.startswith('<<"KVROWS"'))
         V.extra["smallscope_triple_merges"] = V.extra.get("smallscope_triple_merges", 0) + sum(1 for x in res.prints if x.startswith('<<"KVMERGE"'))
         if rc != 0 or not res.accepted:
